@@ -8,7 +8,6 @@ package client
 
 //@ func (*client.sessions).get(s, realm) (sess, ok)
 //@   pure
-//@   trusted_frame lock state only
 //@   ensures ok ==> sess != nil
 
 // The PA-ENC-TIMESTAMP replacement loop in setPAData deletes while ranging; it is safe because the request
@@ -24,7 +23,6 @@ package client
 
 //@ func (*client.Client).IsConfigured(cl) (ok, err)
 //@   pure
-//@   trusted_frame reads the client's credentials and configuration
 
 //@ func client.setPAData(cl, krberr, ASReq) (err)
 //@   modifies ASReq.KDCReqFields.PAData, elems(ASReq.KDCReqFields.PAData), cl.settings.assumePreAuthentication, cl.settings.preAuthEType
